@@ -500,6 +500,39 @@ Section Walkers.
         | None => None
         end
     end.
+
+  (* the loop of a one-generator comprehension over the values xs of its iterable *)
+  Section Loop.
+    Variables (k : ckind) (elt dval : expr) (t : tgt) (ifs : list expr) (en : env).
+    Fixpoint comp_loop (xs : list val) (acc : list val) (dacc : list (val * val)) (tr : trace)
+      : option (val * trace) :=
+      match xs with
+      | [] => match finish_comp k acc dacc with Some r => Some (r, tr) | None => None end
+      | x :: xs' =>
+          match bind t x en with
+          | Some en' =>
+              match eval_conds en' ifs tr with
+              | Some (true, tr1) =>
+                  match ev elt en' tr1 with
+                  | Some (v, tr2) =>
+                      match k with
+                      | CDict =>
+                          match ev dval en' tr2 with
+                          | Some (dv, tr3) =>
+                              if hashable v then comp_loop xs' acc (dict_set dacc v dv) tr3 else None
+                          | None => None
+                          end
+                      | _ => comp_loop xs' (acc ++ [v]) dacc tr2
+                      end
+                  | None => None
+                  end
+              | Some (false, tr1) => comp_loop xs' acc dacc tr1
+              | None => None
+              end
+          | None => None
+          end
+      end.
+  End Loop.
 End Walkers.
 
 Fixpoint eval (w : world) (e : expr) (en : env) (tr : trace) {struct e} : option (val * trace) :=
@@ -553,71 +586,12 @@ Fixpoint eval (w : world) (e : expr) (en : env) (tr : trace) {struct e} : option
       match eval w iter en tr with
       | Some (itv, tr0) =>
           match items_of itv with
-          | Some xs =>
-              (fix loop (xs : list val) (acc : list val) (dacc : list (val * val)) (tr : trace)
-                 : option (val * trace) :=
-                 match xs with
-                 | [] => match finish_comp k acc dacc with Some r => Some (r, tr) | None => None end
-                 | x :: xs' =>
-                     match bind t x en with
-                     | Some en' =>
-                         match eval_conds (eval w) en' ifs tr with
-                         | Some (true, tr1) =>
-                             match eval w elt en' tr1 with
-                             | Some (ev, tr2) =>
-                                 match k with
-                                 | CDict =>
-                                     match eval w dval en' tr2 with
-                                     | Some (dv, tr3) =>
-                                         if hashable ev then loop xs' acc (dict_set dacc ev dv) tr3 else None
-                                     | None => None
-                                     end
-                                 | _ => loop xs' (acc ++ [ev]) dacc tr2
-                                 end
-                             | None => None
-                             end
-                         | Some (false, tr1) => loop xs' acc dacc tr1
-                         | None => None
-                         end
-                     | None => None
-                     end
-                 end) xs [] [] tr0
+          | Some xs => comp_loop (eval w) k elt dval t ifs en xs [] [] tr0
           | None => None
           end
       | None => None
       end
   | EStar _ | EKw _ _ | EKV _ _ | EDStar _ | EOp _ _ => None
-  end.
-
-(* the comprehension loop as a named function (definitionally the local fix above) *)
-Fixpoint comp_loop (w : world) (k : ckind) (elt dval : expr) (t : tgt) (ifs : list expr) (en : env)
-    (xs : list val) (acc : list val) (dacc : list (val * val)) (tr : trace) : option (val * trace) :=
-  match xs with
-  | [] => match finish_comp k acc dacc with Some r => Some (r, tr) | None => None end
-  | x :: xs' =>
-      match bind t x en with
-      | Some en' =>
-          match eval_conds (eval w) en' ifs tr with
-          | Some (true, tr1) =>
-              match eval w elt en' tr1 with
-              | Some (ev, tr2) =>
-                  match k with
-                  | CDict =>
-                      match eval w dval en' tr2 with
-                      | Some (dv, tr3) =>
-                          if hashable ev then comp_loop w k elt dval t ifs en xs' acc (dict_set dacc ev dv) tr3
-                          else None
-                      | None => None
-                      end
-                  | _ => comp_loop w k elt dval t ifs en xs' (acc ++ [ev]) dacc tr2
-                  end
-              | None => None
-              end
-          | Some (false, tr1) => comp_loop w k elt dval t ifs en xs' acc dacc tr1
-          | None => None
-          end
-      | None => None
-      end
   end.
 
 (* =========================================================================================== *)
@@ -780,7 +754,7 @@ Definition rw_enumerate (root e : expr) : option expr :=
   if reads_us root then None else
   match e with
   | EComp k elt dval (TTup [u; x]) (EBi BEnumerate [it]) ifs =>
-      if Nat.eqb u underscore && plain it then Some (EComp k elt dval (TName x) it ifs) else None
+      if Nat.eqb u underscore && negb (is_kw it) then Some (EComp k elt dval (TName x) it ifs) else None
   | _ => None
   end.
 
@@ -947,7 +921,7 @@ Definition rw_comp_casts (e : expr) : option expr :=
       | BList, (CList | CGen) => Some (EComp CList elt dval t it ifs)
       | BIter, CGen => Some (EComp CGen elt dval t it ifs)
       | BDict, CDict => Some (EComp CDict elt dval t it ifs)
-      | BSet, CDict => if simple dval then Some (EComp CSet elt dval t it ifs) else None
+      | BSet, CDict => if simple dval then Some (EComp CSet elt (EConst ANone) t it ifs) else None
       | _, _ => None
       end
   | _ => None
@@ -1219,4 +1193,14 @@ Definition sem_case_ok (c : expr * list (nat * val) * option (val * trace)) : bo
   | Some (v, tr), Some (v', tr') => val_equiv v v' && trace_eqb tr tr'
   | None, None => true
   | _, _ => false
+  end.
+
+(* 0 = agree, 1 = disagree, 2 = the model gives no value (outside its domain) where CPython gives one *)
+Definition sem_case_status (c : expr * list (nat * val) * option (val * trace)) : nat :=
+  let '(e, bindings, expected) := c in
+  match eval test_world e (mkenv bindings) [], expected with
+  | Some (v, tr), Some (v', tr') => if val_equiv v v' && trace_eqb tr tr' then 0%nat else 1%nat
+  | None, None => 0%nat
+  | None, Some _ => 2%nat
+  | Some _, None => 1%nat
   end.
